@@ -945,7 +945,9 @@ impl<Ty: EdgeType, Null: Nullable, Ix: IndexType> Iterator for Neighbors<'_, Ty,
     type Item = NodeIndex<Ix>;
 
     fn next(&mut self) -> Option<Self::Item> {
-        self.0.next().map(|(_, b, _)| b)
+        // the neighbor is the endpoint that is not the queried node
+        let incoming = self.0.iter_direction == NeighborIterDirection::Rows;
+        self.0.next().map(|(a, b, _)| if incoming { a } else { b })
     }
     fn size_hint(&self) -> (usize, Option<usize>) {
         self.0.size_hint()
@@ -1020,12 +1022,9 @@ impl<'a, Ty: EdgeType, Null: Nullable, Ix: IndexType> Iterator for Edges<'a, Ty,
 
             let p = to_linearized_matrix_position::<Ty>(row, column, self.node_capacity);
             if let Some(e) = self.node_adjacencies[p].as_ref() {
-                let (a, b) = match self.iter_direction {
-                    Rows => (column, row),
-                    Columns => (row, column),
-                };
-
-                return Some((NodeIndex::new(a), NodeIndex::new(b), e));
+                // (source, target): when iterating over the rows of a column
+                // (incoming edges) the queried node is the target
+                return Some((NodeIndex::new(row), NodeIndex::new(column), e));
             }
         }
     }
